@@ -170,6 +170,26 @@ func extractErrors(root string) (string, map[string]any, error) {
 	if ctSrc != wantCT {
 		return "", nil, fmt.Errorf("CorrespondTo body not recognised: %s", ctSrc)
 	}
+	// ---- the constructors Model.Err renders: recognised statement by statement (fails closed)
+	shapes := map[string]string{
+		"ConvertContextError": "{ if err == nil { return nil } if Any(err, context.Canceled) { return ErrCancelled } if Any(err, context.DeadlineExceeded) { return ErrTimeout } return err }",
+		"Errorf":              "{ tErr := ConvertContextError(targetErr) if tErr == nil { tErr = ErrUnknown } msg := format if len(args) > 0 { msg = fmt.Sprintf(format, args...) } return fmt.Errorf(\"%w%v %v\", tErr, string(TypeReasonErrorSeparator), msg) }",
+		"New":                 "{ return Errorf(targetError, msg) }",
+		"WrapError":           "{ tErr := targetError if tErr == nil { tErr = ErrUnknown } origErr := ConvertContextError(originalError) if Any(origErr, ErrTimeout, ErrCancelled) { tErr = origErr } if originalError == nil { return New(tErr, msg) } else { return Errorf(tErr, \"%v%v %v\", msg, string(TypeReasonErrorSeparator), originalError.Error()) } }",
+		"WrapErrorf":           "{ if len(args) == 0 { return WrapError(targetError, originalError, msgFormat) } return WrapError(targetError, originalError, fmt.Sprintf(msgFormat, args...)) }",
+		"WrapIfNotCommonErrorf": "{ if Any(ConvertContextError(targetError), ErrTimeout, ErrCancelled) { return WrapErrorf(targetError, originalError, msgFormat, args...) } if IsCommonError(originalError) { return Newf(originalError, msgFormat, args...) } return WrapErrorf(targetError, originalError, msgFormat, args...) }",
+		"Newf":                 "{ return WrapErrorf(targetError, nil, msgFormat, args...) }",
+		"WrapIfNotCommonError": "{ if Any(ConvertContextError(targetError), ErrTimeout, ErrCancelled) { return WrapError(targetError, originalError, msg) } if IsCommonError(originalError) { return New(originalError, msg) } return WrapError(targetError, originalError, msg) }",
+	}
+	for name, want := range shapes {
+		fd := p.funcDecl(name)
+		if fd == nil {
+			return "", nil, fmt.Errorf("%s not found", name)
+		}
+		if got := strings.Join(strings.Fields(p.src(fd.Body)), " "); got != want {
+			return "", nil, fmt.Errorf("%s not recognised: %s", name, got)
+		}
+	}
 	// ---- IsCommonError
 	ic := p.funcDecl("IsCommonError")
 	if ic == nil || len(ic.Body.List) != 1 {
